@@ -208,6 +208,10 @@ func parent(ck *checks.Check, tier string, dl time.Duration) int {
 		}
 	}
 	sort.SliceStable(mine, func(i, j int) bool {
+		// findings of the free-running race pass last: the enumerated ones replay deterministically
+		if ri, rj := mine[i].Case.Fam == "race", mine[j].Case.Fam == "race"; ri != rj {
+			return rj
+		}
 		if len(mine[i].Key) != len(mine[j].Key) {
 			return len(mine[i].Key) < len(mine[j].Key)
 		}
